@@ -265,6 +265,27 @@ def pool(contract, seed=0, limit=4000):
                      {"items": [{}], "additionalItems": {kw: {}}}]
         yield from cap((fn, (copy.deepcopy(d), None)) for d in docs)
         return
+    if cls_name == "Object" and meth == "__new__":
+        from statham.schema.elements import Object, String, Integer
+        from statham.schema.property import Property
+        A = Object.inline("A", properties={"a": Property(String(), required=True)})
+        B = Object.inline("B", properties={"a": Property(String())}, default={"a": "x"})
+        C = Object.inline("C", properties={"a": Property(Integer())}, default={"a": "not an int"})
+        D = Object.inline("D", properties={"a": Property(String(default="d"), required=True)}, minProperties=1, additionalProperties=False)
+        E_ = Object.inline("E", default=None)
+        insts = []
+        for k in (A, B, D):
+            try:
+                insts.append(k({"a": "v"}))
+            except Exception:
+                pass
+        yield from cap((fn, (k, v, UNBOUND_PROPERTY)) for k in (A, B, C, D, E_) for v in list(vals[::2]) + insts)
+        return
+    if cls_name == "ObjectMeta" and meth == "validators":
+        from statham.schema.elements import Object, String
+        from statham.schema.property import Property
+        yield from cap((fn, (k,)) for k in (Object, Object.inline("A", properties={"a": Property(String(), required=True)}), Object.inline("B", minProperties=1)))
+        return
     if cls_name == "ObjectMeta" and meth == "annotation":
         from statham.schema.elements import Object
         from statham.schema.elements.meta import ObjectMeta
